@@ -41,6 +41,8 @@ struct Hop {
     /// where an absolute form points (scheme-relative uses host+port, the others ignore it)
     to: Origin,
     same_host_policy: bool,
+    /// the caller turns the followed flow into a body-sending one (send_body_despite_method) before writing it
+    despite_next: bool,
 }
 
 #[derive(Clone, Debug)]
@@ -50,6 +52,8 @@ struct Case {
     hops: Vec<Hop>,
     /// the original request also carries Expect: 100-continue
     expect: bool,
+    /// a body method's original request carries Transfer-Encoding: chunked next to its Content-Length (accepted: chunked frames)
+    te_and_cl: bool,
 }
 
 fn origin_str(o: &Origin) -> String {
@@ -64,7 +68,8 @@ fn case_json(c: &Case) -> Value {
         "method": c.method.as_str(),
         "start": format!("{}/s/t", origin_str(&c.start)),
         "original_has_expect": c.expect,
-        "hops": c.hops.iter().map(|h| json!({"caller_adds_own_cookie_and_credentials": h.adds_own, "status": h.status, "form": format!("{:?}", h.form), "to": origin_str(&h.to), "same_host_policy": h.same_host_policy})).collect::<Vec<_>>(),
+        "original_has_transfer_encoding_next_to_content_length": c.te_and_cl && needs_body(&c.method),
+        "hops": c.hops.iter().map(|h| json!({"caller_adds_own_cookie_and_credentials": h.adds_own, "status": h.status, "form": format!("{:?}", h.form), "to": origin_str(&h.to), "same_host_policy": h.same_host_policy, "caller_sends_body_despite_method_on_followed_flow": h.despite_next})).collect::<Vec<_>>(),
     })
 }
 
@@ -153,7 +158,14 @@ fn run(c: &Case, st: &mut Stats) -> Result<(), String> {
         .header("x-keep", "1");
     if needs_body(&c.method) {
         b = b.header("Content-Length", "4");
+        if c.te_and_cl {
+            b = b.header("Transfer-Encoding", "chunked");
+            st.class("original_with_transfer_encoding_and_content_length");
+        }
     }
+    // an inherited Transfer-Encoding makes the followed (body-less) request unwritable unless the caller sends a body with it
+    let te_inherited = c.te_and_cl && needs_body(&c.method);
+    let mut prev_despite = false;
     if c.expect {
         b = b.header("Expect", "100-continue");
     }
@@ -175,10 +187,10 @@ fn run(c: &Case, st: &mut Stats) -> Result<(), String> {
         let rr = match after_head(sr).map_err(|e| format!("hop {}: {}", i, e))? {
             AfterHead::RecvResponse(r) => r,
             AfterHead::SendBody(mut bdy) => {
-                if i > 0 {
+                if i > 0 && !prev_despite {
                     return Err(format!("hop {}: a redirected request wants to send a body", i));
                 }
-                send_body(&mut bdy, 4).map_err(|e| format!("hop {}: {}", i, e))?;
+                send_body(&mut bdy, if i == 0 { 4 } else { 0 }).map_err(|e| format!("hop {}: {}", i, e))?;
                 bdy.proceed().ok_or("SendBody::proceed returned None")?
             }
         };
@@ -200,6 +212,11 @@ fn run(c: &Case, st: &mut Stats) -> Result<(), String> {
             nf.header("Cookie", "fresh=1").map_err(|e| format!("header(): {:?}", e))?;
             nf.header("authorization", "Fresh").map_err(|e| format!("header(): {:?}", e))?;
             st.class("caller_adds_own_cookie");
+        }
+        prev_despite = h.despite_next || te_inherited;
+        if prev_despite {
+            nf.send_body_despite_method();
+            st.class("followed_flow_sends_body_despite_method");
         }
         let target = land(&cur, h);
         method = method_after(&method, h.status);
@@ -250,7 +267,7 @@ fn hop_from(idx: usize, salt: usize) -> Hop {
     let to = origin_from(idx % 24);
     let form = FORMS[(idx / 24) % 4];
     let same_host_policy = (idx / 96) % 2 == 1;
-    Hop { adds_own: (idx + salt) % 3 == 0, status: STATUSES[(idx + salt) % STATUSES.len()], form, to, same_host_policy }
+    Hop { adds_own: (idx + salt) % 3 == 0, status: STATUSES[(idx + salt) % STATUSES.len()], form, to, same_host_policy, despite_next: (idx + salt) % 5 == 1 }
 }
 
 /// Exhaustive: start origin (24) x hop 1 (192) x hop 2 (none or 192).
@@ -264,7 +281,7 @@ fn exec_enum(t: &mut Tape, st: &mut Stats) -> Result<(), String> {
     if h2 > 0 {
         hops.push(hop_from(h2 - 1, s + h1));
     }
-    let c = Case { method, start: origin_from(s), hops, expect: (s + h1) % 4 == 1 };
+    let c = Case { method, start: origin_from(s), hops, expect: (s + h1) % 4 == 1, te_and_cl: (s + h1 + h2) % 7 == 3 };
     st.describe(|| case_json(&c));
     run(&c, st)
 }
@@ -280,10 +297,15 @@ fn exec_random(t: &mut Tape, st: &mut Stats) -> Result<(), String> {
         if t.chance(40) {
             to.host = start.host;
         }
-        hops.push(Hop { adds_own: t.chance(30), status: *t.pick(&STATUSES), form: *t.pick(&FORMS), to, same_host_policy: t.chance(70) });
+        hops.push(Hop { adds_own: t.chance(30), status: *t.pick(&STATUSES), form: *t.pick(&FORMS), to, same_host_policy: t.chance(70), despite_next: false });
     }
+    let expect = t.chance(25);
+    for h in hops.iter_mut() {
+        h.despite_next = t.chance(20);
+    }
+    let te_and_cl = t.chance(25);
     st.case_digest = t.digest();
-    let c = Case { method, start, hops, expect: t.chance(25) };
+    let c = Case { method, start, hops, expect, te_and_cl };
     st.describe(|| case_json(&c));
     run(&c, st)
 }
@@ -295,7 +317,9 @@ pub static DEF: PropDef = PropDef {
 SameHost}), statuses {301,302,303,307,308,300,305,399} and methods {GET, POST, HEAD, PUT, DELETE, OPTIONS} rotating with the cell \
 index (889 344 chains); random chains of 3..4 hops biased to return to the original host. The original request carries \
 Authorization, two Cookie fields, Content-Length (body methods), an ordinary header and (one case in four) Expect: 100-continue; on \
-every third hop the caller attaches its own Cookie and Authorization to the followed flow before sending it. Oracle on the head written by the flow \
+every third hop the caller attaches its own Cookie and Authorization to the followed flow before sending it; on every fifth hop (random chains: one in five) \
+it turns the followed flow into a body-sending one (send_body_despite_method, empty chunked body); one original request with a body in seven (random: in four) also carries \
+Transfer-Encoding: chunked next to its Content-Length (then every followed flow sends a body, the inherited coding requires it). Oracle on the head written by the flow \
 of every hop (strictly parsed): no cookie other than the one the caller just attached, no content-length, and the previous request's authorization present only if policy = \
 SameHost and target host = original host and (target scheme = original scheme or https); the target origin comes from the \
 generator's structure (form semantics), never from the implementation. The statement is an 'only if': dropping Authorization where it \
